@@ -275,6 +275,24 @@ def correspond(name, cases, table, stats=None):
     return st
 
 
+def guard(ck, fn, *a, **k):
+    """run one oracle case; an exception that escapes from inside the library (on an input the oracle
+    considers covered by the property) is a failing input, not a crash of the check"""
+    try:
+        return fn(*a, **k)
+    except HarnessSkip:
+        return None
+    except Exception as e:
+        tb = traceback.extract_tb(e.__traceback__)
+        if not any(os.path.realpath(REPO) in os.path.realpath(fr.filename) for fr in tb):
+            raise
+        where = [fr for fr in tb if os.path.realpath(REPO) in os.path.realpath(fr.filename)][-1]
+        ck.fail('%s: the library raised %s: %s (%s:%d) on an input the property covers' % (
+            fn.__name__, type(e).__name__, str(e)[:120], os.path.basename(where.filename), where.lineno),
+            {'oracle': fn.__name__, 'note': 'exception escaped the oracle; re-run the check with the same VERIF_SEED and tier'})
+        return 'raise'
+
+
 # ----------------------------------------------------------------------------
 # Known findings
 # ----------------------------------------------------------------------------
